@@ -1,6 +1,6 @@
 #!/bin/sh
 # usage: bn.sh <area>/<k> [Cnn ...]  - apply a benign patch to /tmp/bn/<area>-<k> and run checks (development aid)
 d=/tmp/bn/$(echo $1 | tr / -)
-rm -rf $d; mkdir -p $d; git -C /repo archive HEAD | tar -x -C $d; (cd $d && git apply ${BN_ROOT:-/tmp/benign2}/$1/patch.diff) || exit 3
+rm -rf $d; mkdir -p $d; git -C /repo archive HEAD | tar -x -C $d; (cd $d && git apply ${BN_ROOT:-/tmp/benign3}/$1/patch.diff) || exit 3
 shift
 for p in "$@"; do /venv/bin/python /verif/sa/check.py $p --repo $d --no-evidence --quiet 2>&1 | grep -A3 "^FAIL\|^ANALYSIS\|^PASS\|^VIOLATION" | cut -c1-420; done
